@@ -163,6 +163,14 @@ def scen_CatchExceptionDataset():
             O.ref_catch(O.ref_map(r, _raise_filter), {'FilterException'}), []
 
 
+def scen_CacheDataset():
+    # a memory cache over deterministic indexable sources shows exactly what the source shows (first and later reads:
+    # observe() reads every position several times)
+    for d, ds, r in O.mk_sources():
+        if r.idx:
+            yield d + '.cache()', ds.cache(), r, r.keys or []
+
+
 SCENARIOS = {k[5:]: v for k, v in list(globals().items()) if k.startswith('scen_')}
 
 # which observation clauses count for which property
